@@ -779,8 +779,10 @@ class Lib:
             return self.arr_setitem(a, idx[0], v)
         if isinstance(idx, tuple):
             full = lambda s: isinstance(s, slice) and s.start is None and s.stop is None and s.step is None
-            if isinstance(v, Opaque) and getattr(v, 'is_nan', False):
-                # model R has no NaN: a NaN fill is an unspecified number (sound for everything that does not test for NaN)
+            stores_nan = isinstance(v, Opaque) and getattr(v, 'is_nan', False)
+            if stores_nan:
+                # model R has no NaN: a NaN fill is an unspecified number (sound for everything that does not test for NaN);
+                # element stores additionally keep a NaN flag per position (below)
                 v = self.ctx.fresh_real('nan_fill')
             if len(idx) == a.ndim and any(full(x) for x in idx) and all(full(x) or not isinstance(x, (slice, Arr, list)) for x in idx) \
                     and not isinstance(v, Arr):
@@ -803,6 +805,11 @@ class Lib:
                 c = z3.And(*[to_z3(x) == to_z3(k) for x, k in zip(ix, ks)])
                 return ite(c, vv, old(ix))
             a.f = newf
+            old_nf = getattr(a, 'nan_f', None)
+            if stores_nan or old_nf is not None:
+                # NaN flag of the position written: set by a NaN store, cleared by a number store
+                prev = old_nf if old_nf is not None else (lambda ix: z3.BoolVal(False))
+                a.nan_f = lambda ix, prev=prev: z3.If(z3.And(*[to_z3(x) == to_z3(k) for x, k in zip(ix, ks)]), z3.BoolVal(stores_nan), to_z3(prev(ix)))
             return
         if isinstance(idx, slice):
             if idx.start is None and idx.stop is None and idx.step is None and not isinstance(v, Arr):
